@@ -108,6 +108,24 @@ def run(ctx, rep):
         rep.check(valid <= set(range(n)) and T not in nb.bits and T not in fr.bits, "O3", name + ":valid-bits",
                   "constructors can set storage bits %s but the raw value must fit in %d bits" % (sorted(valid - set(range(n))), n), at=new.span, fn=new.path,
                   detail={"new": repr(nb), "from_raw": repr(fr)})
+        # unused bits: the channels occupy the low sum(channel widths) bits; everything above is cleared by every
+        # constructor, also by From<Raw> (raw -> colour -> raw "only clears unused bits", and equal channels = equal colours)
+        chan_consts = {}
+        for i_ in prog.impls.values():
+            if isinstance(i_["self_ty"], dict) and i_["self_ty"].get("adt") == cty:
+                for cn in ("MAX_R", "MAX_G", "MAX_B", "MAX_LUMA"):
+                    v_ = i_["consts"].get(cn, {}).get("v")
+                    while isinstance(v_, dict) and "fields" in v_:
+                        v_ = v_["fields"].get("0")
+                    if isinstance(v_, int):
+                        chan_consts[cn] = v_
+        nch = sum(v_.bit_length() for v_ in chan_consts.values())
+        if nch:
+            stray = sorted(j for j in valid if j >= nch)
+            rep.check(not stray, "O3", name + ":unused-bits", "a constructor (new / From<%s>) can leave storage bit(s) %s set, but the channels occupy only the low %d bits: unused bits must be cleared" % (rty.split("::")[-1], stray, nch),
+                      at=from_raw.span, fn=from_raw.path, detail={"new": repr(nb), "from_raw": repr(fr)})
+        else:
+            rep.fail("O3", name + ":unused-bits", "channel maxima (MAX_R/G/B or MAX_LUMA) not found", status="undecided")
         # class-invariant input: bits outside `valid` are 0
         cinv = be.input_of({"adt": cty, "args": []}, "c")
         sb = storage_bits(cinv)
